@@ -148,6 +148,7 @@ type session struct {
 	owned   []proto.Message                  // messages this caller handed to the model
 	events  int64
 	evMu    sync.Mutex
+	skipped []string // public methods whose parameters the generator cannot produce (streams, funcs, ...)
 }
 
 func supportedParam(t reflect.Type) bool {
@@ -194,6 +195,9 @@ func newSession(e modelEntry, r *rand.Rand) *session {
 			}
 		}
 		if !ok || m.Name == "Register" || m.Name == "Unwrap" {
+			if !ok {
+				s.skipped = append(s.skipped, m.Name)
+			}
 			continue
 		}
 		s.methods = append(s.methods, m)
@@ -680,6 +684,13 @@ func runModels(f lib.Flags, res *lib.Result) {
 		}
 		wall[name] = float64(time.Since(t0).Milliseconds()) / 1000
 	}
+	notDriven := map[string][]string{}
+	for _, e := range modelTable {
+		if sk := newSession(e, seqRand(0, e.key(), 0)).skipped; len(sk) > 0 {
+			notDriven[e.key()] = sk
+		}
+	}
+	res.Extra["methods_not_driven"] = notDriven
 	res.Extra["models_driven"] = names
 	res.Extra["models_wall_s"] = wall
 }
